@@ -19,6 +19,7 @@ SPEC = {
         'premises of the theorems: wt t v (value of the static type, map keys distinct and not NaN), supported t (no interface/chan/func slots; map keys of scalar kinds; resolved struct field names distinct), leaves_ok (the format supports every scalar leaf: e.g. valid UTF-8 for json, time within the documented range), item depth < MaxDepth (decoderBase.depthIncr)',
         'struct field lists are the already resolved encoded fields (tags, embedding, omitempty: property C16); the harness strips omitempty from generated struct tags',
         'model of encode.go/decode.go is hand written; tied to the code by vm_compute on what the real cbor Encoder wrote (parsed by an independent cbor parser in the harness) and what the real Decoder returned; all five formats are covered by the direct oracle only',
+        'one path difference is not in the model: a nil []byte reached only by reflection (Encode(&b) at top level, named byte-slice types) is written under NilCollectionToZeroLength as an empty array where the builtin path writes empty bytes; both decode to the empty []byte; the correspondence accepts exactly that case explicitly (C01/Corr.v nil_bytes_by_reflection)',
         'decoding into a non-zero destination (merge semantics, C19), interface slots/DecodeNaked (C15), extensions/Selfer/Marshaler (C17) and numeric cross-kind conversions beyond a range test (C07) are not modelled here',
     ],
     'trusted_extra': [
